@@ -271,3 +271,101 @@ Lemma ex_seq_instance :
 Proof.
   split; [exact ex_wf|]. split; [exact ex_consistent|]. split; vm_compute; reflexivity.
 Qed.
+
+(* ---------------------------------------------------------------------------------------------- *)
+(* Termination: the model of the sequential placer is a structurally recursive total function with *)
+(* no loop bound of its own; in particular it never reports an exhausted bound.                     *)
+(* ---------------------------------------------------------------------------------------------- *)
+Lemma bind_fuel : forall {A B} (r : result A) (f : A -> result B),
+  r <> OutOfFuel -> (forall a, r = Ok a -> f a <> OutOfFuel) -> bind r f <> OutOfFuel.
+Proof.
+  intros A B r f Hr Hf. destruct r as [a| | |]; cbn [bind]; try discriminate.
+  - apply Hf. reflexivity.
+  - exfalso. apply Hr. reflexivity.
+Qed.
+
+Lemma apply_sc_fuel : forall todo f done vr subs, apply_sc f done todo vr subs <> OutOfFuel.
+Proof.
+  induction todo as [|k rest IH]; intros f done vr subs; cbn [apply_sc]; [discriminate|].
+  destruct (subst_c f k) as [| vs | |]; try apply IH.
+  destruct (length vs <=? 1)%nat; [apply IH|].
+  destruct (pop_all (dedup vs) vr []) as [[total vr']|]; [apply IH | discriminate].
+Qed.
+
+Lemma reserve_exceptions_fuel : forall todo m r size, reserve_exceptions m r size todo <> OutOfFuel.
+Proof.
+  induction todo as [|[loc x] todo IH]; intros m r size; cbn [reserve_exceptions]; [discriminate|].
+  destruct (cassoc loc (pm_exc m)) as [d|]; [|discriminate].
+  destruct (after_reservation d r size) as [d'|]; [|discriminate].
+  match goal with |- (if ?b then _ else _) <> _ => destruct b end; [discriminate | apply IH].
+Qed.
+
+Lemma apply_reserve_fuel : forall m r size loc, apply_reserve m r size loc <> OutOfFuel.
+Proof.
+  intros m r size loc. unfold apply_reserve. destruct loc as [c|].
+  - destruct (negb (live m c)); [discriminate|].
+    destruct (after_reservation (chip_res m c) r size) as [d'|]; [|discriminate].
+    destruct (mset m c d') as [m'|]; [|discriminate].
+    destruct (overallocated (chip_res m' c)); discriminate.
+  - destruct (after_reservation (pm_res m) r size) as [d'|]; [|discriminate].
+    destruct (overallocated d'); [discriminate | apply reserve_exceptions_fuel].
+Qed.
+
+Lemma handle_cs_fuel : forall vr cs m pl, handle_cs vr cs m pl <> OutOfFuel.
+Proof.
+  intros vr cs. induction cs as [|k cs IH]; intros m pl; cbn [handle_cs]; [discriminate|].
+  destruct k as [v loc | vs | r s e loc |]; try apply IH.
+  - destruct (negb (live m loc)); [discriminate|].
+    destruct (match zassoc v pl with Some l => chip_eqb l loc | None => false end); [apply IH|].
+    destruct (zassoc v vr) as [d|]; [|discriminate].
+    destruct (mget m loc) as [cr|]; [|discriminate].
+    destruct (mset m loc (subtract_resources cr d)) as [m'|]; [|discriminate].
+    destruct (overallocated (chip_res m' loc)); [discriminate | apply IH].
+  - apply bind_fuel; [apply apply_reserve_fuel | intros a _; apply IH].
+Qed.
+
+Lemma subst_order_fuel : forall subs vo, subst_order subs vo <> OutOfFuel.
+Proof.
+  induction subs as [|[mv vs] t IH]; intros vo; cbn [subst_order]; [discriminate|].
+  destruct vs as [|v0 vs']; [discriminate|].
+  destruct (replace_first v0 mv vo) as [vo1|]; [|discriminate].
+  destruct (remove_members vs' [v0] vo1) as [vo2|]; [apply IH | discriminate].
+Qed.
+
+Lemma try_chip_fuel : forall m d c, try_chip m d c <> OutOfFuel.
+Proof. intros m d c. unfold try_chip. destruct (mget m c); discriminate. Qed.
+
+Lemma scan_fuel : forall m d last cands passed, scan m d last passed cands <> OutOfFuel.
+Proof.
+  intros m d last cands. induction cands as [|x cs IH]; intros passed; cbn [scan]; [discriminate|].
+  destruct (chip_eqb x last); [discriminate|].
+  apply bind_fuel; [apply try_chip_fuel|]. intros o _. destruct o; [discriminate | apply IH].
+Qed.
+
+Lemma place_loop_fuel : forall vr vs m pl cur rest, place_loop vr vs m pl cur rest <> OutOfFuel.
+Proof.
+  intros vr vs. induction vs as [|v vs IH]; intros m pl cur rest; cbn [place_loop]; [discriminate|].
+  destruct (pl_mem v pl); [apply IH|].
+  destruct (zassoc v vr) as [d|]; [|discriminate].
+  apply bind_fuel; [apply try_chip_fuel|]. intros o _. destruct o as [r'|].
+  - destruct (mset m cur r'); [apply IH | discriminate].
+  - apply bind_fuel; [apply scan_fuel|]. intros o2 _. destruct o2 as [[[c r'] rest']|]; [|discriminate].
+    destruct (mset m c r'); [apply IH | discriminate].
+Qed.
+
+Lemma finalise_fuel : forall rsubs pl, finalise rsubs pl <> OutOfFuel.
+Proof.
+  induction rsubs as [|[mv vs] t IH]; intros pl; cbn [finalise]; [discriminate|].
+  destruct (zassoc mv pl); [apply IH | discriminate].
+Qed.
+
+Theorem seq_place_terminates : forall vr m cs vorder corder,
+  seq_place vr m cs vorder corder <> OutOfFuel.
+Proof.
+  intros vr m cs vorder corder. unfold seq_place. destruct (length vr =? 0)%nat; [discriminate|].
+  apply bind_fuel; [apply apply_sc_fuel|]. intros [[vr1 cs1] subs] _.
+  apply bind_fuel; [apply handle_cs_fuel|]. intros [m1 pl0] _.
+  apply bind_fuel; [destruct vorder; [apply subst_order_fuel | discriminate]|]. intros vo _.
+  destruct (filter (live m1) (match corder with Some co => co | None => raster m1 end)); [discriminate|].
+  apply bind_fuel; [apply place_loop_fuel | intros pl1 _; apply finalise_fuel].
+Qed.
